@@ -359,6 +359,27 @@ theorem C17_merge_keys (opts : List Sema.C06.SortOpt) (sort : List Hit → List 
   intro a b hab
   simpa [leKeys] using hab
 
+/-- `C17_search` read for the sort-key comparator with a concrete sort (merge sort; `C17_sort_keys` discharges the
+hypothesis on the sort): for every list of sort options, whatever kinds the values have — all shards answered, at most
+`limit` results, no duplicate, every result from some shard's answer, and the decoded data in `sortCmp` order.  (`hown`
+— each shard's own answer is in that order, which is C06 — is used for a single-shard collection only.) -/
+theorem C17_search_keys (opts : List Sema.C06.SortOpt) (heur : Nat → Nat → Nat) (maxLimit : Nat)
+    (answers : List (Option (List Hit))) (limit offset : Nat) (r : List Hit)
+    (hu : ((answers.flatMap fun a => a.getD []).map Hit.id).Nodup)
+    (hown : ∀ a ∈ answers, ((a.getD []).map (·.data)).Pairwise (fun x y => Sema.C06.sortCmp opts x y ≤ 0))
+    (h : searchPoints (fun l => l.mergeSort (leKeys opts)) heur maxLimit answers limit offset = some r) :
+    (∀ a ∈ answers, a.isSome) ∧ r.length ≤ limit ∧ (r.map Hit.id).Nodup ∧ (∀ x ∈ r, ∃ a ∈ answers, x ∈ a.getD []) ∧
+      (r.map (·.data)).Pairwise (fun a b => Sema.C06.sortCmp opts a b ≤ 0) := by
+  have hown' : ∀ a ∈ answers, (a.getD []).Pairwise (fun x y => leKeys opts x y = true) := by
+    intro a ha
+    have := hown a ha
+    rw [List.pairwise_map] at this
+    exact this.imp (fun hxy => by simpa [leKeys] using hxy)
+  obtain ⟨h1, h2, h3, h4, h5⟩ := C17_search Hit.id (leKeys opts) _ (C17_sort_keys opts).2 heur maxLimit answers limit offset r hu hown' h
+  refine ⟨h1, h2, h3, h4, ?_⟩
+  rw [List.pairwise_map]
+  exact h5.imp (fun hxy => by simpa [leKeys] using hxy)
+
 /-- hence everything C06 proves about a `sortCmp`-ordered list holds for the merged result of a multi-shard
 search: under the first sort option no result that lacks the property stands before one that has it, and
 results that both have it are ordered by `CompareAny` on it (reversed for `descending`) … -/
